@@ -249,14 +249,6 @@ Definition gshape_shift (v : Vec2) (s : gshape) : gshape :=
   | SRobust r => SRobust (rpred (rp_translate v r))
   | SLabel P => SLabel (plred (placement_shift v P))
   end.
-(* what the affine image requires (differs from gshape_apply on FlexPath offsets / widths under
-   reflection or negative magnification: finding F7) *)
-Definition gshape_apply_required (T : placement) (s : gshape) : gshape :=
-  match s with
-  | SFlex f => SFlex (fpred (flexpath_transform_required T f))
-  | _ => gshape_apply T s
-  end.
-
 (* polygons only (used for the statements about explicit matrix composition) *)
 Definition poly_apply (T : placement) (p : polygon) : polygon := polygon_transform T p.
 Definition poly_shift (v : Vec2) (p : polygon) : polygon := polygon_translate v p.
